@@ -167,8 +167,14 @@ def rule_parsefresh(P) -> RuleResult:
     TEXT = _S('TEXT')
     receivers = []
     configs = []
+    altered = []
 
     def on_call(fn, fv, rc, args, kw, ex, node):
+        if str(fn).split('.')[-1] == 'parse' and rc is not None and args[:1] != (TEXT,) and isinstance(rc, _T) and rc.op in ('call', 'new') \
+                and str(rc.args[0]).split('.')[-1].endswith('Parser'):
+            altered.append(args[0] if args else None)
+            receivers.append(rc)
+            return _S('TREE')
         if str(fn).split('.')[-1] == 'parse' and rc is not None and args[:1] == (TEXT,):
             receivers.append(rc)
             configs.append((tuple(args[1:]), tuple(kw), rc))
@@ -184,6 +190,10 @@ def rule_parsefresh(P) -> RuleResult:
             res.fail(pf[-1].fq, 'parsefresh:parser', f'parse() runs the statement through `{_sh(rc)[:60]}`, a parser object that outlives the call: '
                      f'the generated parser keeps its tokenizer, stacks and memo tables on the instance, so two statements parsed at the '
                      f'same time (two threads, any connections) corrupt each other', loc(pf[-1]))
+    for a in altered:
+        res.fail(pf[-1].fq, 'parsefresh:text', f'parse(text) hands the generated parser `{_sh(a)[:60]}` instead of the text it was given: '
+                 f'string literals are data (a tab, a blank or a letter case inside quotes is part of the value), and positions in the tree '
+                 f'refer to the text the caller holds', loc(pf[-1]))
     # the language parsed is the grammar's: the only thing parse() adds to the generated parser is the semantic actions
     for extra, kw_, rc in configs:
         over = [k for k, _ in kw_ if k not in ('semantics',)] + [f'positional argument {i + 2}' for i in range(len(extra))]
@@ -198,4 +208,51 @@ def rule_parsefresh(P) -> RuleResult:
                      f'an override makes the shipped parser accept a different language than the grammar describes', loc(pf[-1]))
     if not res.findings:
         res.ok({'modules': list(mods), 'functions_examined': n, 'memoised': 0, 'writes_outliving_a_parse': 0, 'parser_object': 'one per call'})
+    return res
+
+
+# ----------------------------------------------------------------------
+# R-ROWPURE (C01, C02): evaluating a node on a row leaves no trace on the node
+
+# state an evaluator may keep across rows, confirmed by reading: (class, attribute) -> why it is not row-dependent
+ROWPURE_ALLOWED = {
+    ('EvalConstantSubquery1D', 'value'): 'the result of an uncorrelated subquery, computed on the first row it is asked for and the same for every row',
+}
+
+
+def rule_rowpure(P) -> RuleResult:
+    """The __call__ of every evaluator class (everything below EvalNode except the aggregate protocol, whose per-group state lives in
+    the store it is handed) writes nothing to the node: a cell is computed from its row alone, so what one row - or one group - left
+    behind can never be read by the next.  From the write census: attribute and item stores, mutator calls and setattr on `self`."""
+    res = RuleResult('R-ROWPURE')
+    c = _census(P)
+    seen = 0
+    for m in P.modules.values():
+        for ci in m.classes.values():
+            try:
+                if not P.is_subclass(ci, 'beanquery.query_compile:EvalNode'):
+                    continue
+            except AnalysisError:
+                continue
+            call = ci.methods.get('__call__')
+            if call is None:
+                continue
+            seen += 1
+            bad = []
+            for w in c.writes:
+                if w.func is not call or not w.receiver.startswith('self'):
+                    continue
+                attr = w.receiver.split('.')[1].split('[')[0].split('(')[0] if '.' in w.receiver else ''
+                if (ci.name, attr) in ROWPURE_ALLOWED:
+                    continue
+                bad.append((w, attr))
+            if bad:
+                w, attr = bad[0]
+                res.fail(call.fq, f'rowpure:{attr or w.kind}', f'{ci.name}.__call__ writes `{w.receiver}` while evaluating a row: the node is shared by every '
+                         f'row (and every group) of the execution, so a value computed for one row is what a later row is evaluated with',
+                         f'{call.module.path}:{getattr(w.node, "lineno", 0)}')
+            else:
+                res.ok({'evaluator': ci.fq, 'writes_to_the_node_while_evaluating': 0})
+    if seen < 12:
+        raise AnalysisError(f'only {seen} evaluator classes with __call__ found')
     return res
